@@ -4,10 +4,11 @@
 set -u
 DIR="$1"; ID="$2"; TIER="${3:-quick}"; shift 3 2>/dev/null || shift $#
 SEEDS="${*:-1 2}"
+P="$DIR/patch.diff"; [ -f "$DIR/patch.rebased.diff" ] && P="$DIR/patch.rebased.diff"
 cd /repo || exit 2
 if [ -n "$(git status --porcelain -- src Cargo.toml)" ]; then echo "/repo has uncommitted changes; refusing"; exit 2; fi
-git apply --check "$DIR/patch.diff" || { echo "PATCH DOES NOT APPLY: $DIR"; exit 2; }
-git apply "$DIR/patch.diff"
+git apply --check "$P" || { echo "PATCH DOES NOT APPLY: $DIR"; exit 2; }
+git apply "$P"
 RES="MISSED"
 for S in $SEEDS; do
   OUT=$(cd /verif && VERIF_SEED=$S ./check "$ID" "$TIER" 2>&1); RC=$?
